@@ -40,7 +40,8 @@ type DeviceReq struct {
 	Accepted   bool
 	Code       codes.Code
 	Req        *gpb.SetRequest
-	Epoch      int // device incarnation (bumped by RestartEmpty)
+	Epoch      int  // device incarnation (bumped by RestartEmpty)
+	Executed   bool // the request was executed although it was answered with an error (lost answer)
 }
 
 // Device is an in-process gNMI target.
@@ -53,6 +54,7 @@ type Device struct {
 	highest   uint64
 	log       []DeviceReq
 	faults    []codes.Code // returned (in order) by the next Set calls
+	lost      []codes.Code // the next Set calls are EXECUTED but answered with these codes (the answer is lost)
 	epoch     int
 	lis       *bufconn.Listener
 	srv       *grpc.Server
@@ -185,6 +187,12 @@ func (d *Device) Set(ctx context.Context, r *gpb.SetRequest) (*gpb.SetResponse, 
 		if rec.HasArb && rec.ElectionID > d.highest {
 			d.highest = rec.ElectionID
 		}
+		if len(d.lost) > 0 {
+			c := d.lost[0]
+			d.lost = d.lost[1:]
+			err = status.Error(c, "answer lost: "+c.String())
+			rec.Executed = true
+		}
 		for _, del := range r.Delete {
 			de := fullElems(r.Prefix, del)
 			for k, l := range d.leaves {
@@ -251,6 +259,14 @@ func (d *Device) InjectFaults(cs ...codes.Code) {
 	d.mu.Unlock()
 }
 
+// InjectLostAnswers makes the device EXECUTE the next len(cs) Set calls but
+// answer them with the given codes (the response is lost on the way back).
+func (d *Device) InjectLostAnswers(cs ...codes.Code) {
+	d.mu.Lock()
+	d.lost = append(d.lost, cs...)
+	d.mu.Unlock()
+}
+
 // PendingFaults returns how many injected faults have not been consumed yet.
 func (d *Device) PendingFaults() int {
 	d.mu.Lock()
@@ -262,6 +278,7 @@ func (d *Device) PendingFaults() int {
 func (d *Device) ClearFaults() {
 	d.mu.Lock()
 	d.faults = nil
+	d.lost = nil
 	d.mu.Unlock()
 }
 
